@@ -413,6 +413,47 @@ def parser_verdicts(doc, n_events):
         return seen + ['err:' + type(ex).__name__] + [None] * (n_events - len(seen) - 1)
 
 
+SORT_FAULTS = ['none', 'attachment-without-id', 'empty-object', 'empty-attachment', 'two-empty-objects']
+SORT_ET = {'atts': [{'base64': False, 'name': 'a0'}],
+           'props': [{'dt': 'string:0:mc:u', 'multivalued': True, 'name': 'p0', 'optional': False, 'regex': None},
+                     {'dt': 'string:0:mc:u', 'multivalued': False, 'name': 'p1', 'optional': False, 'regex': None}]}
+
+
+def sortgate_verdicts(xfault):
+    """Verdict of a validating writer on a parsed event with an XML level defect, without and with sort=True."""
+    from lxml import etree
+    from edxml import EDXMLWriter
+    from edxml.error import EDXMLEventValidationError
+    ns = '{http://edxml.org/edxml}'
+    out = {}
+    for sort in (False, True):
+        o = build_ontology(SORT_ET)
+        e = gen.build_event({'type': 't', 'source': '/s/', 'props': [['p0', ['x', 'b']], ['p1', ['y']]],
+                             'atts': [['a0', [['id1', 'text'], ['id0', 'more']]]]}, 'parsed')
+        props, atts = e.find(ns + 'properties'), e.find(ns + 'attachments')
+        if xfault == 'attachment-without-id':
+            del atts[0].attrib['id']
+        elif xfault == 'empty-object':
+            etree.SubElement(props, ns + 'p0')
+        elif xfault == 'two-empty-objects':
+            etree.SubElement(props, ns + 'p0')
+            etree.SubElement(props, ns + 'p0')
+        elif xfault == 'empty-attachment':
+            atts[0].text = None
+        try:
+            w = EDXMLWriter(io.BytesIO())
+            w.add_ontology(o)
+            w.add_event(e, sort=sort)
+            w.close()
+            v = 'accepted'
+        except EDXMLEventValidationError:
+            v = 'EDXMLEventValidationError'
+        except Exception as ex:
+            v = 'foreign:' + type(ex).__name__
+        out['sorted' if sort else 'plain'] = v
+    return out
+
+
 def writer_verdict(o, ev, rep, sort=False):
     from edxml import EDXMLWriter
     from edxml.error import EDXMLEventValidationError
@@ -824,6 +865,10 @@ class C03(Property):
             yield {'kind': 'struct', 'et': et, 'base': ev, 'fault': fault, 'seed': rng.randint(0, 10 ** 6)}
         for i in range(60 if quick else 1500):
             yield {'kind': 'history', 'seed': rng.randint(0, 10 ** 9), 'length': rng.randint(2, 14)}
+        # the writer asked to sort the components of a parsed event that is damaged on the XML level: the same verdict as
+        # without sorting, and never anything but an EDXML error
+        for xf in SORT_FAULTS:
+            yield {'kind': 'sortgate', 'xfault': xf}
 
     # -- running histories on the real code
     def run_history(self, case):
@@ -954,6 +999,8 @@ class C03(Property):
 
     # -- observation
     def observe(self, case):
+        if case['kind'] == 'sortgate':
+            return sortgate_verdicts(case['xfault'])
         if case['kind'] == 'b64codec':
             import base64
             dt = 'base64:%d' % case['max']
@@ -1000,6 +1047,8 @@ class C03(Property):
 
     # -- model
     def requests(self, case):
+        if case['kind'] == 'sortgate':
+            return []
         if case['kind'] == 'b64codec':
             return [{'op': 'b64', 'bytes': case['bytes'], 'strings': case['strings'], 'maxLen': case['max']}]
         if case['kind'] == 'value':
@@ -1019,6 +1068,10 @@ class C03(Property):
         return [{'op': 'gate', 'hist': ops}]
 
     def predict(self, case, replies):
+        if case['kind'] == 'sortgate':
+            # an event is a set of components: sorting them is no operation of the model, the gate decides as before
+            want = 'accepted' if case['xfault'] == 'none' else 'EDXMLEventValidationError'
+            return {'plain': want, 'sorted': want}
         if case['kind'] == 'b64codec':
             r = replies[0]
             return {'enc': r['enc'], 'accepted': r['accepted'], 'dec': r['dec']}
@@ -1032,6 +1085,16 @@ class C03(Property):
 
     # -- independent oracle
     def oracle(self, case, obs):
+        if case['kind'] == 'sortgate':
+            what = 'validating writer, parsed event with XML level defect %s' % case['xfault']
+            for k in ('plain', 'sorted'):
+                if str(obs[k]).startswith('foreign:'):
+                    return '%s, add_event(event%s) raised %s' % (what, ', sort=True' if k == 'sorted' else '', obs[k][8:])
+            if obs['plain'] != obs['sorted']:
+                return '%s: add_event(event) is %s, add_event(event, sort=True) is %s' % (what, obs['plain'], obs['sorted'])
+            if case['xfault'] == 'none' and obs['plain'] != 'accepted':
+                return '%s: a valid event is refused' % what
+            return None
         if case['kind'] == 'b64codec':
             import base64
             import binascii
@@ -1079,7 +1142,7 @@ class C03(Property):
         return None
 
     def neighbours(self, case, rng):
-        if case['kind'] == 'b64codec':
+        if case['kind'] in ('b64codec', 'sortgate'):
             return []
         if case['kind'] == 'value':
             vals = []
@@ -1092,6 +1155,8 @@ class C03(Property):
         return [dict(case, seed=rng.randint(0, 10 ** 6), fault=f) for f in FAULTS]
 
     def reductions(self, case):
+        if case['kind'] == 'sortgate':
+            return
         if case['kind'] == 'b64codec':
             for i in range(len(case['strings'])):
                 if len(case['strings']) > 1:
@@ -1115,6 +1180,8 @@ class C03(Property):
         if vs is None:
             vs = [obs.get('verdict')] if isinstance(obs, dict) else []
         flat = [v for v in vs if isinstance(v, bool)]
+        if case['kind'] == 'sortgate':
+            return json.dumps(case, sort_keys=True)
         if case['kind'] == 'struct':
             return json.dumps(case, sort_keys=True) if flat else None
         return json.dumps(case, sort_keys=True) if (True in flat and False in flat) else None
